@@ -20,7 +20,7 @@ RULE = ("every history up to the depth bound over operations on one instance "
 EXPLANATION = ("direct exploration with fresh classes per execution; "
                "reference = pristine baseline computed in a separate fresh "
                "class hierarchy + identity walk for sharing")
-BOUNDS = {"quick": "depth 2 exhaustive over ~125 events (19 default kinds), depth 3 from the "
+BOUNDS = {"quick": "depth 2 exhaustive over ~115 events (19 default kinds), depth 3 from the "
                    "deduplicated frontier over a 40-event sub-menu",
           "thorough": "depth 3 over the full menu with dedup"}
 ASSUMPTIONS = ["default kinds 'object' and 'disallow' not crossed"]
